@@ -28,7 +28,7 @@ def audit(name, args):
     if name == "import":
         mod = args[0]
         root = mod.split(".")[0]
-        if mod in STATE["named"] or root in STATE["named"]:
+        if mod in STATE["named"] or root in STATE["named"] or any(part in STATE["named"] for part in mod.split(".")):
             ev("import_named", mod)
         else:
             ev("own_import", mod)
